@@ -354,6 +354,9 @@ static double now_s(void) {
     return (double)ts.tv_sec + (double)ts.tv_nsec * 1e-9;
 }
 
+static double HANG_S = 240.0;
+static int hungkill[MAXW];
+static uint64_t hung_total;
 static int do_campaign(void) {
     pid_t pid[MAXW];
     int vfd[MAXW];
@@ -376,12 +379,33 @@ static int do_campaign(void) {
     }
     while (alive > 0) {
         int st;
-        pid_t p = wait(&st);
+        pid_t p = waitpid(-1, &st, WNOHANG);
+        if (p == 0) {
+            /* watchdog: a worker that makes no progress for HANG_S seconds is killed; a hang is "inconclusive", never a verdict */
+            static uint64_t lastprog[MAXW];
+            static double lastt[MAXW];
+            double now = now_s();
+            struct timespec ts = {0, 50 * 1000 * 1000};
+            for (w = 0; w < NW; w++) {
+                uint64_t pr = W[w]->evals + W[w]->skipped + W[w]->fuzz_done + W[w]->idx + W[w]->gen_total + (uint64_t)W[w]->phase;
+                if (pr != lastprog[w] || lastt[w] == 0) { lastprog[w] = pr; lastt[w] = now; }
+                else if (pid[w] > 0 && now - lastt[w] > HANG_S && !hungkill[w]) { hungkill[w] = 1; kill(pid[w], SIGKILL); }
+            }
+            nanosleep(&ts, NULL);
+            continue;
+        }
         if (p < 0) break;
         for (w = 0; w < NW; w++) if (pid[w] == p) break;
         if (w == NW) continue;
         alive--;
+        pid[w] = 0;
         if (WIFEXITED(st) && WEXITSTATUS(st) == 0) continue;
+        if (hungkill[w]) { /* killed by the watchdog: count it, skip the case, go on */
+            hungkill[w] = 0;
+            hung_total++;
+            W[w]->skipped++;
+            st = 42 << 8; /* treat like a requested restart */
+        }
         /* worker died: 42 = requested restart after a recorded fragile case;
            anything else = uncaptured crash while executing a case */
         if (!(WIFEXITED(st) && WEXITSTATUS(st) == 42)) {
@@ -458,12 +482,12 @@ static int do_campaign(void) {
         f = fopen(path, "w");
         fprintf(f, "{\"module\":\"%s\",\"tier\":%d,\"seed\":%llu,\"libcfg\":\"%s\",\"evaluations\":%llu,\"nontrivial\":%llu,"
                    "\"distinct_nontrivial\":%llu,\"violating_cases\":%llu,\"skipped\":%llu,\"enum_cases\":%llu,"
-                   "\"enum_complete\":%s,\"workers_died\":%llu,\"wall_s\":%.2f,\n\"labels\":{",
+                   "\"enum_complete\":%s,\"workers_died\":%llu,\"workers_hung\":%llu,\"wall_s\":%.2f,\n\"labels\":{",
                 M->name, CFG.tier, (unsigned long long)CFG.seed, CFG.libcfg ? CFG.libcfg : "",
                 (unsigned long long)evals, (unsigned long long)nontriv,
                 (unsigned long long)distinct, (unsigned long long)viols, (unsigned long long)skipped,
                 (unsigned long long)W[0]->gen_total, enum_complete ? "true" : "false",
-                (unsigned long long)died, now_s() - t0);
+                (unsigned long long)died, (unsigned long long)hung_total, now_s() - t0);
         for (k = 0; k < nlab; k++) {
             if (k) fputc(',', f);
             json_escape(f, lab[k].name);
